@@ -2,6 +2,9 @@ package main
 
 import (
 	"fmt"
+	"go/token"
+	"go/types"
+	"sort"
 	"strings"
 
 	"golang.org/x/tools/go/ssa"
@@ -9,9 +12,9 @@ import (
 
 func init() {
 	register(&PropSpec{
-		ID: "C16",
+		ID:          "C16",
 		Explanation: "Structural necessary conditions for 'end-to-end calls and replies reach exactly the caller they belong to'. E1: the CallID of every UpstreamCall built by the call APIs comes from a fresh random id generated in that invocation; RequestCallID is empty for calls and taken from the request for replies. E2: the ack waiter (and, for call-and-wait, the reply waiter) is registered under its mutex before the call is sent. E3: the ack dispatcher looks up, deletes and delivers by the ack's CallID, the reply dispatcher by RequestCallID; not-found edges deliver to no waiter. E4: channels stored in both waiter tables have capacity ≥ 1. E5: each field of the returned call/reply value derives from the same-named field of the received message.",
-		NotDecided: []string{"behaviour with concurrent callers and permuted acks/replies as histories", "reconnect between call and ack"},
+		NotDecided:  []string{"behaviour with concurrent callers and permuted acks/replies as histories", "reconnect between call and ack"},
 		Rules: func(r *Run) {
 			le := newLockEngine(r.P)
 			ruleC16E1(r)
@@ -23,6 +26,8 @@ func init() {
 			ruleC16E5(r)
 			ruleNameAgreement(r, "E7", "/iscp", "/wire")
 			ruleErrorDiscipline(r, "E8")
+			ruleCloseBeliefs(r, "E9")
+			ruleC16E10(r)
 			ruleLockPairingFor(r, le, "E6", "lock pairing in the call correlation paths: every function touching the waiter tables releases their mutexes on every path", func(fn *ssa.Function) bool {
 				for _, a := range collectAccesses(fn) {
 					fk := fieldKey(a.Owner, a.Field)
@@ -299,4 +304,163 @@ func ruleNameAgreement(r *Run, id string, pkgs ...string) {
 		r.Check("package "+pp, len(bad) == 0, "", pp, fmt.Sprintf("%d plain field-to-field copies examined, %d name mismatches", n, len(bad)))
 	}
 	r.Stat("field_copies_examined", total)
+}
+
+// ruleCloseBeliefs: where the Done() branch of a blocking select asks the connection status whether the connection
+// was closed (to report ErrConnectionClosed to this caller), the author relies on a close waking this select. The
+// selected context must then be one that a close cancels: derived from connStatus.WithCloseStatus (or the
+// connection's own context). Without it the caller sleeps until its own deadline and gets the wrong error.
+func ruleCloseBeliefs(r *Run, id string) {
+	r.Begin(id, "a close reaches every waiting caller: in package iscp, when the Done() branch of a blocking select tests the connection status for Closed, the context whose Done() is selected derives from connStatus.WithCloseStatus or from the connection's own context", 2)
+	p := r.P
+	closed, ok := p.enumConst("/iscp", "connStatusClosed")
+	if !ok {
+		r.Undecided("anchor connStatusClosed", "constant not found")
+		return
+	}
+	for _, fn := range p.Funcs {
+		if fnPkgPath(fn) != modPath+"/iscp" || fn.Blocks == nil {
+			continue
+		}
+		k := 0
+		allInstrs(fn, func(ins ssa.Instruction) {
+			sel, isSel := ins.(*ssa.Select)
+			if !isSel || !sel.Blocking {
+				return
+			}
+			for i, st := range sel.States {
+				if st.Dir != types.RecvOnly {
+					continue
+				}
+				cx := doneCtx(st.Chan)
+				if cx == nil {
+					continue
+				}
+				sb := selectStateBlock(sel, i)
+				if sb == nil {
+					continue
+				}
+				// does the branch test the status for Closed?
+				tests := false
+				for _, b := range fn.Blocks {
+					if !(b == sb || sb.Dominates(b)) {
+						continue
+					}
+					for _, x := range b.Instrs {
+						if c, isC := x.(*ssa.Call); isC && isCallNamed(c, "/iscp.connStatus.Is") {
+							if v, isK := constInt(c.Call.Args[1]); isK && v == closed {
+								tests = true
+							}
+						}
+					}
+				}
+				if !tests {
+					continue
+				}
+				k++
+				name := fnName(fn)
+				okCtx := false
+				var seen []string
+				for _, root := range ctxRoots(cx) {
+					l := p.Leaves(root, provOpts{})
+					seen = append(seen, l...)
+					if hasLeaf(l, "call:/iscp.connStatus.WithCloseStatus") || hasLeaf(l, "field:/iscp.Conn.ctx") {
+						okCtx = true
+					}
+				}
+				r.Check(fmt.Sprintf("%s close-aware wait#%d", name, k), okCtx, posOf(p, sel), name, "the Done() branch asks whether the connection is Closed, but the selected context derives from ["+joinLeaves(dedup(seen))+"]: nothing cancels it when the connection closes")
+			}
+		})
+	}
+}
+
+func dedup(in []string) []string {
+	m := map[string]bool{}
+	var out []string
+	for _, s := range in {
+		if !m[s] {
+			m[s] = true
+			out = append(out, s)
+		}
+	}
+	sort.Strings(out)
+	return out
+}
+
+// ruleC16E10: a reply is handed both to the connection-wide queue (best effort) and to the caller waiting for it.
+// The second delivery must not depend on the first: from the point where a received call is known to be a reply,
+// every path back to the next receive passes the lookup in the per-call waiter table.
+func ruleC16E10(r *Run) {
+	r.Begin("E10", "the per-call delivery is unconditional: in the reply dispatcher, from the edge on which the received call carries a non-empty RequestCallID, the next receive (or a return) is not reachable without passing the lookup in Conn.replyCallChs — a full connection-wide reply queue must not cancel the delivery to the waiting caller", 1)
+	p := r.P
+	n := 0
+	for _, fn := range p.Funcs {
+		if fnPkgPath(fn) != modPath+"/iscp" || fn.Blocks == nil {
+			continue
+		}
+		var lookup ssa.Instruction
+		allInstrs(fn, func(ins ssa.Instruction) {
+			if lk, ok := ins.(*ssa.Lookup); ok && hasLeaf(p.Leaves(lk.X, provOpts{}), "field:/iscp.Conn.replyCallChs") {
+				lookup = ins
+			}
+		})
+		recvs := findCalls(fn, false, "/wire.ClientConn.ReceiveDownstreamCall")
+		if lookup == nil || len(recvs) == 0 {
+			continue
+		}
+		n++
+		name := fnName(fn)
+		// the test RequestCallID == ""
+		var test *ssa.If
+		var replyEdge *ssa.BasicBlock
+		allInstrs(fn, func(ins ssa.Instruction) {
+			ifs, ok := ins.(*ssa.If)
+			if !ok {
+				return
+			}
+			bo, ok := ifs.Cond.(*ssa.BinOp)
+			if !ok || (bo.Op != token.EQL && bo.Op != token.NEQ) {
+				return
+			}
+			isEmpty := func(v ssa.Value) bool {
+				c, ok := v.(*ssa.Const)
+				return ok && c.Value != nil && c.Value.ExactString() == `""`
+			}
+			var other ssa.Value
+			if isEmpty(bo.Y) {
+				other = bo.X
+			} else if isEmpty(bo.X) {
+				other = bo.Y
+			}
+			if other == nil || !hasLeaf(p.Leaves(other, provOpts{}), "field:/message.DownstreamCall.RequestCallID") {
+				return
+			}
+			test = ifs
+			if bo.Op == token.EQL {
+				replyEdge = ifs.Block().Succs[1]
+			} else {
+				replyEdge = ifs.Block().Succs[0]
+			}
+		})
+		if test == nil {
+			r.Check(name+" reply reaches its waiter", false, posOf(p, lookup), name, "no test of RequestCallID against the empty string separates calls from replies")
+			continue
+		}
+		w := reachesWithoutFromBlock(replyEdge, func(ins ssa.Instruction) bool {
+			if _, isRet := ins.(*ssa.Return); isRet {
+				return true
+			}
+			return ins == recvs[0]
+		}, func(ins ssa.Instruction) bool { return ins == lookup })
+		where := posOf(p, lookup)
+		detail := "every path from the reply edge passes the waiter lookup"
+		if w != nil {
+			where = posOf(p, w)
+			detail = "from the reply edge the next receive/return at " + posOf(p, w) + " is reachable without looking the waiter up: that reply never reaches the caller blocked in SendCallAndWaitReplayCall"
+		}
+		r.Check(name+" reply reaches its waiter", w == nil, where, name, detail)
+	}
+	if n == 0 {
+		r.Undecided("reply dispatcher", "no function looks up Conn.replyCallChs and receives downstream calls")
+	}
 }
